@@ -566,7 +566,12 @@ fn pool_worker_loop(pool: Arc<ThreadPool>, timeout: Option<Duration>) {
                     .task_wakeup
                     .wait_timeout(records, time_to_deadline)
                     .unwrap();
-                if wait_result.timed_out() {
+                if wait_result.timed_out() && records.queue.is_empty() {
+                    // NOTE: a task may have been queued for us between
+                    // the moment the wait timed out and the moment we
+                    // reacquired the lock. The submitter counted on us
+                    // being available, so we must not leave without
+                    // looking at the queue.
                     records.available_workers -= 1;
                     return;
                 } else {
